@@ -186,6 +186,10 @@ pub struct World {
     pub diverged: bool,
     /// Breaks ties between tasks due at the same (second-granular) time.
     pub tie_rng: crate::util::Rng,
+    /// When set, a tie between equally-earliest due tasks is decided in
+    /// favour of the first task whose queue name contains this text (a
+    /// scripted choice among orders the real queue can produce as well).
+    pub prefer: Option<String>,
     /// Never use directed claims (fault-injection runs: the harness' own
     /// storage move must not consume the injected fault).
     pub no_directed: bool,
@@ -218,6 +222,7 @@ impl World {
             started: Timestamp::now(),
             tasks_kv, task_log: vec![], step_log: vec![], script: None,
             diverged: false, tie_rng: crate::util::Rng::new(0x7a5c),
+            prefer: None,
             no_directed: false,
             oracle_skip: Default::default(),
             _tokio: tokio,
@@ -580,7 +585,13 @@ impl World {
                     let (key, value) = self.krill.tasks().pop()?;
                     Some(self.process_claimed(key, value))
                 } else {
-                    let pick = self.tie_rng.below(ties.len() as u64) as usize;
+                    let preferred = self.prefer.as_ref().and_then(|pat| {
+                        ties.iter().position(|t| t.1.contains(pat.as_str()))
+                    });
+                    let pick = match preferred {
+                        Some(i) => i,
+                        None => self.tie_rng.below(ties.len() as u64) as usize,
+                    };
                     let key = ties[pick].2.clone();
                     self.step_directed(&key)
                 }
